@@ -3,11 +3,13 @@ package c02
 import (
 	"fmt"
 	"testing"
+	"time"
 
 	"github.com/google/uuid"
 	"github.com/semafind/semadb/models"
 	"github.com/semafind/semadb/shard/cache"
 	"pgregory.net/rapid"
+	"verif/drive"
 	"verif/gen"
 	"verif/model"
 	"verif/run"
@@ -211,6 +213,32 @@ func execBulk(c BulkCase) (res vt.Result) {
 		if err != nil {
 			res.Err = err
 			return res
+		}
+		// a composite search one of whose sub-queries fails at the shard (a property without an index; the
+		// HTTP layer would not let it through) beside scans over thousands of values: whatever the search
+		// answers, none of its sub-queries may still be reading when it returns - the storage transaction
+		// ends with the call, and a read after that is what the detector in the storage proxy records
+		for _, p := range gen.SortedProps(c.Schema) {
+			var scan models.Query
+			switch c.Schema[p].Type {
+			case models.IndexTypeInteger:
+				scan = models.Query{Property: p, Integer: &models.SearchIntegerOptions{Value: int64(-100000), Operator: models.OperatorGreaterThan}}
+			case models.IndexTypeString:
+				scan = models.Query{Property: p, String: &models.SearchStringOptions{Value: "A", Operator: models.OperatorGreaterThan}}
+			default:
+				continue
+			}
+			bad := models.Query{Property: "no-such-index", Integer: &models.SearchIntegerOptions{Value: 1, Operator: models.OperatorEquals}}
+			for _, q := range []models.Query{{Property: "_or", Or: []models.Query{bad, scan, scan}}, {Property: "_and", And: []models.Query{scan, bad}}} {
+				if _, err := r.S.Search(models.SearchRequest{Query: q}); err != nil {
+					rec.Count("bulk_composite_searches_with_a_failing_sub_query", 1)
+				}
+				time.Sleep(2 * time.Millisecond) // (a straggler would be reading now)
+				if err := drive.StrayVerdict(r.S); err != nil {
+					res.Err = fmt.Errorf("after a composite search with a failing sub-query on %s: %v", p, err)
+					return res
+				}
+			}
 		}
 		rec.Count("bulk_batches", 1)
 		rec.Max("bulk_batch_points", int64(len(st.Points)+len(st.Ids)))
